@@ -2,6 +2,7 @@
    (unconditionally); push_patch is split into its tree selection and its final part. *)
 From Coq Require Import Lia.
 From StgV Require Import Model.StackSpec Proofs.WfBasics.
+From StgV Require Export Proofs.PickBasics.
 
 Ltac fr_triv := solve [ split; [reflexivity | apply store_extends_refl] ].
 
@@ -273,7 +274,7 @@ Qed.
 (* ---------------------------------------------------------------- execute, in parts *)
 
 Definition exec_w0 (w : world) (t : txn) : world :=
-  mkWorld (t_objs t) (w_branch w) (w_stack w) (w_prefs w) (t_wt t) (t_wt_unmerged t) (w_base w).
+  mkWorld (t_objs t) (w_branch w) (w_stack w) (w_prefs w) (t_wt t) (t_wt_unmerged t) (w_base w) (w_apc w).
 
 Definition exec_logged (w : world) (t : txn) : option (world * sstate) :=
   if Nat.eqb (s_head (t_stack t)) (w_branch w) then Some (exec_w0 w t, t_stack t)
@@ -327,7 +328,7 @@ Definition exec_fin (t : txn) (trans_head : oid) (w1 : world) (st1 : sstate) (wt
       | Some (objs', so) =>
           let w2 := mkWorld objs' (if o_set_head (t_opts t) then trans_head else w_branch w1) (Some so)
                             (exec_prefs (w_prefs w1) (t_updated t)) wt' um'
-                            (match t_base t with Some b => b | None => w_base w1 end) in
+                            (match t_base t with Some b => b | None => w_base w1 end) (w_apc w1) in
           match halted with
           | Some _ => (w2, X3)
           | None => (w2, X0)
@@ -353,7 +354,7 @@ Definition exec_body (w : world) (t : txn) (halted : option halt) (msg : msgkind
         | Some (w1, st1) =>
             match exec_co t trans_head w1 st1 with
             | inr (wt', um', x) =>
-                (mkWorld (w_objs w1) (w_branch w1) (w_stack w1) (w_prefs w1) wt' um' (w_base w1), x)
+                (mkWorld (w_objs w1) (w_branch w1) (w_stack w1) (w_prefs w1) wt' um' (w_base w1) (w_apc w1), x)
             | inl (wt', um') => exec_fin t trans_head w1 st1 wt' um' halted msg
             end
         end
@@ -413,3 +414,11 @@ Qed.
 Lemma squash_exit_fst : forall (p : world * exitc) (b : bool),
   fst (let '(w', x) := p in if b then (w', X3) else (w', x)) = fst p.
 Proof. intros [w' x] b. destruct b; reflexivity. Qed.
+
+(* ---------------------------------------------------------------- pick *)
+
+Lemma frame_pick_body : forall pn o na t, frame t (pick_body pn o na t).
+Proof.
+  intros pn o na t. unfold pick_body. apply frame_tbind; [apply frame_new_unapplied|].
+  intros t1 _. destruct na; [apply fr_refl|apply frame_push_patches].
+Qed.
